@@ -397,8 +397,9 @@ def multisection_keys(env):
                   same, "user %r, analysis point %r" % (user.get(k), built.get(k, "<absent>")))
 
 
-@job("c19.point_wiring", ("C19", "C05", "C06", "C09", "C17", "C18"),
-     cfgs=[dict(nsurf=1, compressible=False, rotational=False), dict(nsurf=2, compressible=True, rotational=True), dict(nsurf=3, compressible=False, rotational=True, _tier=T)])
+@job("c19.point_wiring", ("C19", "C05", "C06", "C09", "C17", "C18", "C03"),
+     cfgs=[dict(nsurf=1, compressible=False, rotational=False), dict(nsurf=2, compressible=True, rotational=True), dict(nsurf=1, compressible=True, rotational=False),
+           dict(nsurf=2, compressible=False, rotational=True), dict(nsurf=3, compressible=False, rotational=True, _tier=T)])
 def point_wiring(env, nsurf, compressible, rotational):
     """one quantity, one source inside the aerodynamic analysis point: every component that takes a flight condition (speed,
     density, angles, Mach and Reynolds number, rotation rates, reference point) reads it from the same source, and no input
@@ -440,3 +441,6 @@ def point_wiring(env, nsurf, compressible, rotational):
     d = dangling_inputs(p, "ap.", allowed=())
     env.holds("C19,C05,C06,C18", "analysis point: no input is left at its default while the point computes a variable of that name",
               not d, "; ".join(d[:4]))
+    from .c16 import stale_reads
+    st = stale_reads(p, "")
+    env.holds("C19,C05,C06,C09,C03", "analysis point: every input is computed before it is read (no value of the previous run)", not st, "; ".join(st[:4]))
